@@ -1,0 +1,18 @@
+//go:build verif
+
+// Contracts for package piece, checked by /verif/govc (see /verif/DESIGN.md).
+// This file contains only comments: it adds no code to any build.
+
+package piece
+
+// GeomP: the geometry of a piece store whose metadata is known.
+//@ spec GeomP(ps *Pieces) bool
+//@   body ps.pieceSize >= 16384 && ps.pieceSize%16384 == 0 && ps.length >= 0 && int64(len(ps.pieces)) == (ps.length+int64(ps.pieceSize)-1)/int64(ps.pieceSize)
+
+//@ func (*Pieces).MetadataComplete
+//@   requires ps != nil && ps.length <= 0
+//@   requires psize >= 16384 && length >= 0 && (length+int64(psize)-1)/int64(psize) <= 1<<32
+//@   modifies ps.pieces, ps.pieceSize, ps.length
+//@   ensures  [geom]  ps.pieceSize == psize && ps.length == length && int64(len(ps.pieces)) == (length+int64(psize)-1)/int64(psize)
+//@   ensures  [fresh] fresh_(ps.pieces)
+//@   props    C13 C12
